@@ -55,7 +55,7 @@ try:
         for tag, d in (("clean", clean), ("patched", mut)):
             f = os.path.join(work, f"demo_{tag}.py")
             import re as _re
-            open(f, "w").write(_re.sub(r"/tmp/seed2?/C\d\d", d, demo_src))
+            open(f, "w").write(_re.sub(r"/tmp/seed\d?/C\d\d", d, demo_src))
             q = subprocess.run(["/venv/bin/python", f], capture_output=True, text=True, timeout=900, cwd=d)
             demo[tag] = q.returncode
             meta["ran"].append(f"demo.py on the {tag} copy: exit {q.returncode}" + ("" if q.returncode == 0 else " :: " + (q.stderr.strip().splitlines() or ["?"])[-1][:200]))
